@@ -670,8 +670,10 @@ impl RADAU {
                 err += r * r;
             }
             err = (err / n as Float).sqrt();
-            // A NaN estimate must reject the step (Float::max would silently drop the NaN)
-            err = if err.is_nan() { Float::INFINITY } else { err.max(1e-10) };
+            // A NaN estimate must reject the step (Float::max would silently drop the NaN), and so must a new state
+            // y + z3 that is not finite (the estimate does not see an overflow)
+            let state_finite = (0..n).all(|i| (y[i] + z3[i]).is_finite());
+            err = if err.is_nan() || !state_finite { Float::INFINITY } else { err.max(1e-10) };
             #[cfg(ivp_verif)]
             crate::verif_hooks::trace("err", &[err]);
 
@@ -696,7 +698,7 @@ impl RADAU {
                     err += r * r;
                 }
                 err = (err / n as Float).sqrt();
-                err = if err.is_nan() { Float::INFINITY } else { err.max(1e-10) };
+                err = if err.is_nan() || !state_finite { Float::INFINITY } else { err.max(1e-10) };
                 #[cfg(ivp_verif)]
                 crate::verif_hooks::trace("err2", &[err]);
             }
